@@ -158,6 +158,12 @@ func InotifyRmWatch(fd int, wd uint32) (int, error) {
 func NewFile(fd uintptr, name string) *os.File {
 	f := os.NewFile(fd, name)
 	if s := st(); s != nil && f != nil {
+		// the number may be a reused one whose earlier (deferred) close has completed
+		for _, fi := range s.files {
+			if fi.fd == int(fd) && fi.closed {
+				fi.fd = -1
+			}
+		}
 		s.files[f] = &fileInfo{fd: int(fd), idx: len(s.files)}
 	}
 	return f
